@@ -10,7 +10,8 @@ Tie:  G  `classify._cpu_binary` is translated (Gen/Kernels.lean: binary_cpu); th
 Oracles (written from the property statement, independent of the model): first bin >= v by linear scan,
 NaN for non-finite / above the last bin, every finite cell classified in [0, k-1], order preservation,
 equal-width intervals in exact rational arithmetic, percentile grid and bands, brute-force optimal
-partitions for natural_breaks (n <= 9).
+partitions for natural_breaks (n <= 9; the exact rational recurrence up to n = 40), within `opt_tol`: the bound on what a
+Jenks programme with float32 tables can resolve for the data at hand (offset-heavy data: offset / spread up to 1e4).
 Every classifier call gets its raster in a recorded memory layout (C-contiguous, Fortran, strided view, negative
 strides, a window of a larger array) and dtype class (float32 / float64 / signed / unsigned integers); the harness
 keeps a private copy taken before the call: the oracles judge the result against the *original* cell values, and
